@@ -131,6 +131,7 @@ type Gen struct {
 	instGen    int
 	ifaceUse   map[string]bool
 	heapRead   map[string]bool
+	constMapsUsed map[string]bool
 }
 
 func (g *Gen) newHV(name, so, term string, kind int, parents ...*HV) *HV {
